@@ -97,4 +97,19 @@ theorem C05_answer_fn_signature (s : MethodShape) :
   simp only [genMockFn]
   cases h : s.recv <;> simp [answerByRef]
 
+/-- **C05, generic traits and methods, impl-Trait parameters.** The `MockFn` of a type-generic method is implemented for
+    one struct whose type parameters are the trait's, then the method's, then one per impl-Trait parameter in parameter
+    order; the generated body names the same struct with the same trait/method parameters and leaves exactly the
+    impl-Trait ones to inference — so every instantiation forwards to *its own* `MockFn` (distinct `TypeId`s, C18). -/
+theorem C05_generic_mockfn (s : MethodShape) :
+    genericNames s = (if s.traitGen then ["T"] else []) ++ (if s.methodGen then ["U"] else []) ++ implNames s.params ∧
+    (isTypeGeneric s = true →
+      (genMockFn s).path = s!"__Generic{apiIdent s}<{",".intercalate (genericNames s)}>" ∧
+      (genMethod s).mockFn = s!"__Generic{apiIdent s}<{",".intercalate
+        ((if s.traitGen then ["T"] else []) ++ (if s.methodGen then ["U"] else []) ++ (implNames s.params).map fun _ => "_")}>") ∧
+    (isTypeGeneric s = false → (genMethod s).mockFn = (genMockFn s).path) := by
+  refine ⟨rfl, ?_, ?_⟩
+  · intro h; simp [genMockFn, genMethod, mockFnPath, evalMockFnPath, h]
+  · intro h; simp [genMockFn, genMethod, evalMockFnPath, h]
+
 end Unimock.Codegen
